@@ -118,7 +118,8 @@ def check_remove_overlapping(ctx):
     rx, ry = f"self[{x}].radius", f"self[{y}].radius"
     cases = []  # (x_strictly_bigger: bool|None, removed index text, pop call)
     for c in pops:
-        for dec, val in value_cases(fv, c, c.args[0], stop=(x, y, D)):
+        # (the pair's indices stay symbolic where they come from the arg-min; a swap `x, y = y, x` is followed)
+        for dec, val in value_cases(fv, c, c.args[0], stop=(D,), keep=(x, y)):
             pol = None
             for txt, bigger_is_x in ((f"{rx} > {ry}", True), (f"{ry} < {rx}", True), (f"{ry} > {rx}", False), (f"{rx} < {ry}", False)):
                 tv = truth_of(dec, txt)
@@ -762,10 +763,17 @@ def check_fresh_derivations(ctx):
         fv = view(m, fi)
         si = stmt_index(fv)
         tstores = [s for s in fv.statements() if isinstance(s, ast.Assign) and U(s.targets[0]) == "self.times"]
-        vals = [U(fv.expand(s.value, s)) for s in tstores]
+        from ..astutil import ifexp_cases as _ifc
+
         allowed = ("[]", "list(times)", f"list(range(len(self.{members})))")
-        bad = [(s, v) for s, v in zip(tstores, vals) if v not in allowed]
-        ctx.decide(not bad and len(tstores) >= 2, "FRESH", q + ":times", (fi, bad[0][0]) if bad else fi, "the constructor stores its own list of times (list(times))",
+        bad, n_vals = [], 0
+        for s in tstores:
+            # every alternative of the stored value (branches or a conditional expression) is a list of the constructor's own
+            for _c, v_ in _ifc(fv.expand(s.value, s)):
+                n_vals += 1
+                if U(v_) not in allowed:
+                    bad.append((s, U(v_)))
+        ctx.decide(not bad and n_vals >= 2, "FRESH", q + ":times", (fi, bad[0][0]) if bad else fi, "the constructor stores its own list of times (list(times))",
                    f"`{U(bad[0][0]) if bad else ''}`: the constructor keeps the caller's/source's list of times by reference; appending to a copy then changes the source's times but not its members (lengths diverge)")
         mstores = [s for s in fv.statements() if isinstance(s, ast.Assign) and U(s.targets[0]) == f"self.{members}"]
         badm = [s for s in mstores if U(s.value) != "[]"]
